@@ -41,6 +41,7 @@ Thr == 0..MaxT
 HDR == 40
 BUSY == 19
 TIMED_OUT == 11
+ALREADY_EXISTS == 17
 
 Max(a, b) == IF a > b THEN a ELSE b
 NoPend == [op |-> "none", obj |-> "", arg |-> 0]
@@ -138,14 +139,16 @@ BeginOp(S, t) ==
     ELSE LET op == S.K.prog[t][i]
              S1 == [S EXCEPT !.ip[t] = i, !.need[t] = S.maxret, !.enqidx[t] = 0,
                              !.out = Append(@, <<"Call", t, op.key>>)]
-         IN IF op.k = "L" THEN Goto(S1, t, "lock", "M", 0, "f_lockM") ELSE BeginSend(S1, t)
+         IN IF op.k = "L" THEN Goto(S1, t, "lock", "M", 0, "f_lockM")
+            ELSE IF op.k = "X" THEN Goto(S1, t, "lock", "P", 0, "x_lockP")      \* jls_twr_signal_def that will be refused
+            ELSE BeginSend(S1, t)
 
 Return(S, t, rc) ==
     LET op == S.K.prog[t][S.ip[t]]
         b == IF op.k = "L" /\ rc = 0 /\ Len(S.applied) < S.need[t] THEN {"flush returned before earlier messages were applied"}
              ELSE IF op.k = "L" /\ rc = 0 /\ S.synced < S.need[t] THEN {"flush returned before earlier messages were synced"}
-             ELSE IF op.k # "L" /\ rc = 0 /\ S.enqidx[t] = 0 THEN {"success without a queued message"}
-             ELSE IF op.k # "L" /\ rc # 0 /\ S.enqidx[t] # 0 THEN {"error although the message was queued"}
+             ELSE IF op.k \notin {"L", "X"} /\ rc = 0 /\ S.enqidx[t] = 0 THEN {"success without a queued message"}
+             ELSE IF op.k \notin {"L", "X"} /\ rc # 0 /\ S.enqidx[t] # 0 THEN {"error although the message was queued"}
              ELSE {}
         S1 == [S EXCEPT !.out = Append(@, <<"Ret", t, op.key, rc, S.fsend, S.fproc>>),
                         !.bad = @ \cup b,
@@ -232,6 +235,9 @@ Local(S, t) ==
       \* jls_now() >= t_stop with t_stop = t_start + JLS_TIME_MILLISECOND * timeout: JLS_TIME_MILLISECOND is rounded
       \* up (1073742 for 1073741.824), so at exactly timeout ms the deadline has not passed yet
       [] pc = "f_slept" -> IF S.now > S.tstop[t] THEN Return(S, t, TIMED_OUT) ELSE FlushPoll(S, t)
+      \* ---- jls_twr_signal_def of an existing signal: refused under the process lock, which is released again
+      [] pc = "x_lockP" -> Goto([S EXCEPT !.out = Append(@, <<"Apply", t, "-", "S">>)], t, "unlock", "P", 0, "x_unlockP")
+      [] pc = "x_unlockP" -> Return(S, t, ALREADY_EXISTS)
       \* ---- jls_twr_close after the join
       [] pc = "c_join" ->
             LET S1 == [S EXCEPT !.wrclosed = TRUE,
